@@ -71,6 +71,34 @@ func c17GenSet(seed int64, idx int, tag string) *yang.ModSet {
 	for _, m := range ms.Mods {
 		walk(m)
 	}
+	// containers without any child (with and without presence), at the top of a module, inside
+	// containers and inside list entries: a path that ends on one is judged like any other container
+	n := 0
+	var hollow func(s *yang.Stmt, depth int)
+	hollow = func(s *yang.Stmt, depth int) {
+		for _, k := range s.Kids {
+			if k.Kw == "container" || k.Kw == "list" {
+				hollow(k, depth+1)
+			}
+		}
+		if (s.Kw == "container" || s.Kw == "list" || s.Kw == "module") && r.Chance(1, 3) {
+			n++
+			h := yang.S("container", fmt.Sprintf("hollow-%s-%d", strings.ReplaceAll(ms.Mods[0].Arg, "_", "-"), n))
+			h.Block = true
+			if r.Chance(1, 3) {
+				h.Add(yang.S("presence", "p"))
+			}
+			if r.Chance(1, 4) {
+				// only a choice without any data node inside
+				h.Add(yang.S("choice", "void", yang.S("case", "nothing")))
+			}
+			s.Add(h)
+		}
+	}
+	for _, m := range ms.Mods {
+		hollow(m, 0)
+		yang.SortSections(m)
+	}
 	return ms
 }
 
